@@ -8,7 +8,7 @@ def instances(tier):
     out = []
     for n in ((0, 1, 2, 3) if q else (0, 1, 2, 3, 4)):
         out.append({'entry': 'h_any', 'params': [n], 'bound': 'every NUL-free byte string of length %d' % n})
-    for nt, sp, al in ([(1, 0, 27), (2, 0, 27), (3, 0, 27), (4, 0, 9), (2, 1, 12)] if q else [(1, 0, 27), (2, 0, 27), (3, 0, 27), (4, 0, 14), (5, 0, 8), (2, 1, 27), (3, 1, 10)]):
+    for nt, sp, al in ([(1, 0, 28), (2, 0, 28), (3, 0, 28), (4, 0, 9), (2, 1, 12)] if q else [(1, 0, 28), (2, 0, 28), (3, 0, 28), (4, 0, 14), (5, 0, 8), (2, 1, 28), (3, 1, 10)]):
         out.append({'entry': 'h_tokens', 'params': [nt, sp, al], 'bound': 'every sequence of %d token(s) from the first %d of the XML token table%s' % (nt, al, ' + one arbitrary spliced byte' if sp else '')})
     for shape in (0, 1, 2, 3):
         for nb in ((1,) if q and shape else (1, 2)):
@@ -20,7 +20,7 @@ def instances(tier):
     return out
 
 
-BOUNDS = {'quick': 'raw bytes to length 3; all sequences of up to 3 tokens from a 27-token XML table (4 from 9), one spliced arbitrary byte; 4 DOM shapes to depth 3 with 1-2 symbolic bytes per attribute value / text node; numeric character references with every 5 hex / 7 decimal digits',
+BOUNDS = {'quick': 'raw bytes to length 3; all sequences of up to 3 tokens from a 28-token XML table (4 from 9), one spliced arbitrary byte; 4 DOM shapes to depth 3 with 1-2 symbolic bytes per attribute value / text node; numeric character references with every 5 hex / 7 decimal digits',
           'thorough': 'raw bytes to length 4; token sequences to 5; 2 symbolic bytes everywhere'}
 OUTSIDE = ['DOM trees deeper than 3 / more than 3 children', 'documents longer than 5 tokens', 'raw strings longer than 4 bytes', 'Xml::read/write through files']
 ASSUMPTIONS = ['__dynamic_cast modelled over the type-info objects clang emitted (single inheritance)']
